@@ -19,8 +19,8 @@ EXTENDS HeapOps, TLC, Json, IOUtils
 
 CONSTANTS InitTrees, MaxSteps
 
-VARIABLES heap, roots, pairs, want, steps, last, hist, init
-vars == <<heap, roots, pairs, want, steps, last, hist, init>>
+VARIABLES heap, roots, pairs, want, steps, last, hist, init, shallow
+vars == <<heap, roots, pairs, want, steps, last, hist, init, shallow>>
 
 -----------------------------------------------------------------------------
 (* Building a heap from an abstract tree (only used to state initial states) *)
@@ -73,7 +73,7 @@ TgRef(h, ref) ==
 
 -----------------------------------------------------------------------------
 Init == /\ \E tr \in InitTrees : LET a == Alloc(<<>>, tr) IN heap = a.h /\ roots = <<a.ref.n>> /\ init = tr
-        /\ hist = <<>>
+        /\ hist = <<>> /\ shallow = {}
         /\ pairs = <<>> /\ steps = 0 /\ last = "init"
         /\ want = <<Struct(heap, IdRef(roots[1]))>>
 
@@ -83,7 +83,7 @@ Tagify(i) ==
   /\ roots' = Append(roots, r.out[1].n)
   /\ pairs' = Append(pairs, [src |-> roots[i], dst |-> r.out[1].n])
   /\ want' = Append(want, Struct(r.h, r.out[1]))
-  /\ last' = "Tagify" /\ hist' = Append(hist, [act |-> "Tagify", i |-> i, kind |-> "", ord |-> 0]) /\ UNCHANGED init
+  /\ last' = "Tagify" /\ hist' = Append(hist, [act |-> "Tagify", i |-> i, kind |-> "", ord |-> 0]) /\ UNCHANGED <<init, shallow>>
 
 \* copy.copy(tag): new tag object, new child list and attribute map with the same elements
 CopyTag(i) ==
@@ -94,18 +94,20 @@ CopyTag(i) ==
   /\ roots' = Append(roots, n)
   /\ want' = Append(want, Struct(heap', IdRef(n)))
   /\ last' = "CopyTag" /\ hist' = Append(hist, [act |-> "CopyTag", i |-> i, kind |-> "", ord |-> 0]) /\ UNCHANGED init
+  \* a shallow copy and its source share their children by design: neither is promised anything from then on
+  /\ shallow' = shallow \cup {i, Len(roots) + 1}
   /\ UNCHANGED pairs
 
 \* render(), str(), repr(), _repr_html_(), get_html_string(), get_dependencies(), HTMLDocument(...).render(),
 \* save_html(), HTMLDependency.as_html_tags/as_dict/source_path_map/serialize...: nothing changes
 ReadOnly(i) == /\ last' = "ReadOnly" /\ hist' = Append(hist, [act |-> "ReadOnly", i |-> i, kind |-> "", ord |-> 0])
-               /\ UNCHANGED <<heap, roots, pairs, want, init>>
+               /\ UNCHANGED <<heap, roots, pairs, want, init, shallow>>
 
 \* mutations through root i: on an object of ITS tree, by the public API
 MutTargets(i, kind) == {n \in ReachTree(heap, roots[i]) : heap[n].t = kind}
 Rank(i, n) == Cardinality({m \in ReachTree(heap, roots[i]) : heap[m].t = heap[n].t /\ m <= n})
 MutateAs(i, n, newobj, act) ==
-  /\ hist' = Append(hist, [act |-> act, i |-> i, kind |-> heap[n].t, ord |-> Rank(i, n)]) /\ UNCHANGED init
+  /\ hist' = Append(hist, [act |-> act, i |-> i, kind |-> heap[n].t, ord |-> Rank(i, n)]) /\ UNCHANGED <<init, shallow>>
   /\ heap' = [heap EXCEPT ![n] = newobj]
   /\ want' = [want EXCEPT ![i] = Struct(heap', IdRef(roots[i]))]
   /\ last' = "Mutate"
@@ -130,7 +132,8 @@ InvIndependent == \A p \in 1..Len(pairs) : Shared(heap, pairs[p].src, pairs[p].d
 TagifyRelated(i, j) == \E p \in 1..Len(pairs) : {pairs[p].src, pairs[p].dst} = {roots[i], roots[j]}
 InvNonInterference ==
   \A i \in 1..Len(roots) :
-     (\A j \in 1..Len(roots) : j # i => TagifyRelated(i, j) \/ ReachTree(heap, roots[i]) \cap ReachTree(heap, roots[j]) = {})
+     (i \notin shallow /\
+      \A j \in 1..Len(roots) : j # i => TagifyRelated(i, j) \/ ReachTree(heap, roots[i]) \cap ReachTree(heap, roots[j]) = {})
         => Struct(heap, IdRef(roots[i])) = want[i]
 \* the result is a fixed point of tagify and equals the expansion of the source at the time
 InvFixedPoint == \A p \in 1..Len(pairs) :
